@@ -12,7 +12,7 @@ from fractions import Fraction
 from decimal import Decimal
 
 from . import source
-from .types import (NArr, SList, SDict, SSet, Rec, Opt, CList, FuncRef, ModRef, Unsupported, VerifierError, is_sym,
+from .types import (SMat, TMat, NArr, SList, SDict, SSet, Rec, Opt, CList, FuncRef, ModRef, Unsupported, VerifierError, is_sym,
                     R, I, B, S, T, TInt, TReal, TBool, TStr, TNode, TObj, TTuple, TVec, TList, TDict, TRec, TOpt,
                     slist_get, slist_set, slist_append, slist_slice, to_slist, norm_index, norm_slice_bound,
                     key_term, key_untuple, key_sort_of)
@@ -341,8 +341,28 @@ class Engine:
 
     def ex_Assign(self, node):
         val = self.ev(node.value)
+        if isinstance(val, NArr) and len(node.targets) == 1 and isinstance(node.targets[0], ast.Name):
+            val = self.name_large(val, node.targets[0].id)
         for tgt in node.targets:
             self.assign(tgt, val)
+
+    NAME_THRESHOLD = 40
+
+    def name_large(self, arr, name):
+        """let-abstraction: large real-valued entries of an array bound to a variable are replaced by fresh
+        constants with defining equalities (keeps later obligations small; semantically neutral)"""
+        out, changed = [], False
+        for x in arr.data:
+            if isinstance(x, z3.ArithRef) and term_size(x, self.NAME_THRESHOLD) >= self.NAME_THRESHOLD:
+                c = self.fresh(f"let_{name}", TReal)
+                d = c == ops.real(x)
+                LET_DEFS.add(d.get_id())
+                self.pc.append(d)
+                out.append(c)
+                changed = True
+            else:
+                out.append(x)
+        return NArr(arr.shape, out) if changed else arr
 
     def ex_AnnAssign(self, node):
         if node.value is not None:
@@ -445,18 +465,29 @@ class Engine:
     # ---- loops
     def loop_spec(self, node):
         fr = self.frame
-        k = fr.loop_ordinal
-        fr.loop_ordinal += 1
+        k = self.static_loop_ordinal(fr, node)
         if self.contract is not None and len(self.frames) == 1:
             return k, self.contract.loops.get(k)
         c = self.registry.get(f"{fr.mod.dotted}:{fr.qual}")
         return k, (c.loops.get(k) if c is not None else None)
 
+    def static_loop_ordinal(self, fr, node):
+        fnode = fr.mod.functions.get(fr.qual)
+        if fnode is None:
+            return -1
+        cache = getattr(fnode, "_loop_ordinals", None)
+        if cache is None:
+            loops = [n for n in ast.walk(fnode) if isinstance(n, (ast.For, ast.While))]
+            loops.sort(key=lambda n: (n.lineno, n.col_offset))
+            cache = {id(n): i for i, n in enumerate(loops)}
+            fnode._loop_ordinals = cache
+        return cache.get(id(node), -1)
+
     def ex_For(self, node):
         ordinal, spec = self.loop_spec(node)
         it = self.ev(node.iter)
         items = self.concrete_items(it)
-        if items is not None and spec is None:
+        if items is not None:
             try:
                 for item in items:
                     self.assign(node.target, item)
@@ -708,6 +739,15 @@ class Engine:
             if rest:
                 raise Unsupported("nested store into array")
             return self.narr_store(obj, x, val)
+        if isinstance(obj, SMat):
+            if rest or not (isinstance(x, tuple) and len(x) == 2 and isinstance(x[0], int)):
+                raise Unsupported("matrix store form")
+            r, j = x
+            j = norm_index(I(j), obj.ncols)
+            self.may_raise("IndexError", b_not(z3.And(j >= 0, j < obj.ncols)), None, "column index store")
+            comps = list(obj.comps)
+            comps[r] = z3.Store(comps[r], j, ops.real(val))
+            return SMat(obj.rows, obj.ncols, comps)
         if isinstance(obj, dict):
             if is_sym(x):
                 raise Unsupported("symbolic key store into concrete dict")
@@ -918,6 +958,8 @@ class Engine:
             if attr in base.fields:
                 return base.fields[attr]
             return BoundMethod(self.lvalue(node.value) if node is not None and is_path(node.value) else None, base, attr)
+        if isinstance(base, SMat) and attr == "shape":
+            return (base.rows, base.ncols)
         if isinstance(base, NArr):
             if attr == "shape":
                 return tuple(base.shape)
@@ -983,6 +1025,15 @@ class Engine:
             raise Unsupported(f"index {idx!r}")
         if isinstance(base, NArr):
             return self.narr_index(base, idx, node)
+        if isinstance(base, SMat):
+            if isinstance(idx, tuple) and len(idx) == 2 and isinstance(idx[0], int):
+                r, j = idx
+                if not 0 <= r < base.rows:
+                    raise PyRaise("IndexError", node)
+                j = norm_index(I(j), base.ncols)
+                self.may_raise("IndexError", b_not(z3.And(j >= 0, j < base.ncols)), node, "column index")
+                return base.comps[r][j]
+            raise Unsupported("matrix index form")
         if isinstance(base, SList):
             i = norm_index(I(idx), base.n)
             self.may_raise("IndexError", b_not(z3.And(i >= 0, i < base.n)), node, "index")
@@ -1320,6 +1371,18 @@ BINOPS = {ast.Add: "+", ast.Sub: "-", ast.Mult: "*", ast.Div: "/", ast.FloorDiv:
 CMPOPS = {ast.Lt: "<", ast.LtE: "<=", ast.Gt: ">", ast.GtE: ">=", ast.Eq: "==", ast.NotEq: "!="}
 
 
+LET_DEFS = set()      # ids of definitional equalities introduced by let-abstraction (solver may hide them)
+
+
+def term_size(t, limit):
+    n, stack = 0, [t]
+    while stack and n < limit:
+        x = stack.pop()
+        n += 1
+        stack.extend(x.children())
+    return n
+
+
 def is_path(node):
     if isinstance(node, ast.Name):
         return True
@@ -1421,6 +1484,8 @@ def type_of(v):
         return TTuple(*[type_of(x) for x in v])
     if isinstance(v, NArr):
         return TVec(*v.shape)
+    if isinstance(v, SMat):
+        return TMat(v.rows)
     if isinstance(v, SList):
         return TList(v.t)
     if isinstance(v, CList):
